@@ -9,6 +9,7 @@ import (
 	"github.com/Eyevinn/mp4ff/avc"
 	"pgregory.net/rapid"
 
+	"verif/internal/esgen"
 	"verif/internal/harness"
 	"verif/internal/nalgen"
 )
@@ -16,395 +17,6 @@ import (
 type avcSPSCase struct {
 	Tree nalgen.AVCSPSTree `json:"tree"`
 	Hex  string            `json:"hex,omitempty"` // informational: the serialised NAL unit
-}
-
-var avcProfiles = []uint32{66, 77, 88, 100, 110, 122, 244, 44, 83, 86, 118, 128, 138, 139, 134, 135}
-var avcLevels = []uint32{9, 10, 11, 12, 13, 20, 21, 22, 30, 31, 32, 40, 41, 42, 50, 51, 52, 60, 61, 62}
-
-// avcSPSOpts steers the SPS generator.
-type avcSPSOpts struct {
-	ID    uint32
-	Light bool // fewer/lighter scaling lists, VUI, poc cycles (slice and conf contexts)
-	Conf  bool // first SPS of a configuration record (known-defect avoidance of the conf checks applies)
-}
-
-func genAVCScalingList(t *rapid.T, size int, label string) nalgen.ScalingListSyntax {
-	l := nalgen.ScalingListSyntax{Present: true}
-	mode := rapid.IntRange(0, 5).Draw(t, label+"-mode")
-	if mode == 0 {
-		l.Deltas = []int{-8} // nextScale 0 at j==0: useDefaultScalingMatrixFlag
-		return l
-	}
-	stopAt := -1
-	if mode == 1 {
-		stopAt = rapid.IntRange(1, size-1).Draw(t, label+"-stop")
-	}
-	last := 8
-	for j := 0; j < size; j++ {
-		var d int
-		switch {
-		case j == stopAt:
-			d = (256 - last) % 256 // makes nextScale 0: the rest of the list repeats lastScale
-			if d > 127 {
-				d -= 256
-			}
-		case mode == 2:
-			d = rapid.IntRange(-2, 2).Draw(t, label)
-		case mode == 3:
-			d = rapid.SampledFrom([]int{-128, 127, -127, 126, 0, 1, -1}).Draw(t, label)
-		default:
-			d = rapid.IntRange(-128, 127).Draw(t, label)
-		}
-		l.Deltas = append(l.Deltas, d)
-		next := (last + d + 256) % 256
-		if next == 0 {
-			break
-		}
-		last = next
-	}
-	return l
-}
-
-func genAVCScalingLists(t *rapid.T, n int, light bool, label string) []nalgen.ScalingListSyntax {
-	out := make([]nalgen.ScalingListSyntax, n)
-	for i := range out {
-		den := 2
-		if light || i >= 6 {
-			den = 4
-		}
-		if avcChance(t, 1, den, label+"-present") {
-			size := 16
-			if i >= 6 {
-				size = 64
-			}
-			out[i] = genAVCScalingList(t, size, label)
-		}
-	}
-	return out
-}
-
-func genAVCHRD(t *rapid.T, label string) *avc.HrdParameters {
-	h := &avc.HrdParameters{}
-	h.CpbCountMinus1 = uint(rapid.SampledFrom([]int{0, 0, 0, 1, 2, 31}).Draw(t, label+"-cpbcnt"))
-	h.BitRateScale = uint(rapid.IntRange(0, 15).Draw(t, label+"-brs"))
-	h.CpbSizeScale = uint(rapid.IntRange(0, 15).Draw(t, label+"-css"))
-	n := int(h.CpbCountMinus1) + 1
-	// bit_rate_value_minus1 strictly increasing, cpb_size_value_minus1 non-increasing with SchedSelIdx (E.2.2)
-	br := avcDrawUint(t, 0, 1<<32-2-uint64(n-1), label+"-br0")
-	cs := avcDrawUint(t, 0, 1<<32-2, label+"-cs0")
-	for i := 0; i < n; i++ {
-		h.CpbEntries = append(h.CpbEntries, avc.CpbEntry{BitRateValueMinus1: br, CpbSizeValueMinus1: cs, CbrFlag: rapid.Bool().Draw(t, label+"-cbr")})
-		if i+1 < n {
-			room := uint64(1<<32-2) - uint64(br) - uint64(n-i-2)
-			step := uint64(1)
-			if room > 1 && avcChance(t, 1, 2, label+"-brstep") {
-				step = uint64(avcDrawUint(t, 1, room, label+"-brinc"))
-			}
-			br += uint(step)
-			if cs > 0 && avcChance(t, 1, 2, label+"-csstep") {
-				cs = avcDrawUint(t, 0, uint64(cs), label+"-csdec")
-			}
-		}
-	}
-	h.InitialCpbRemovalDelayLengthMinus1 = uint(rapid.IntRange(0, 31).Draw(t, label+"-icrd"))
-	h.CpbRemovalDelayLengthMinus1 = uint(rapid.IntRange(0, 31).Draw(t, label+"-crd"))
-	h.DpbOutputDelayLengthMinus1 = uint(rapid.IntRange(0, 31).Draw(t, label+"-dod"))
-	h.TimeOffsetLength = uint(rapid.IntRange(0, 31).Draw(t, label+"-tol"))
-	return h
-}
-
-func genAVCVUI(t *rapid.T, tr *nalgen.AVCSPSTree, light bool) {
-	v := &avc.VUIParameters{}
-	tr.S.VUI = v
-	tr.AspectRatioInfoPresent = rapid.Bool().Draw(t, "aspect_ratio_info_present_flag")
-	if tr.AspectRatioInfoPresent {
-		idc := rapid.SampledFrom([]int{0, 1, 2, 13, 16, 255, 255, -1}).Draw(t, "aspect_ratio_idc")
-		if idc < 0 {
-			idc = rapid.IntRange(1, 16).Draw(t, "aspect_ratio_idc-table")
-		}
-		if avcAvoid("avc-sps-aspect-ratio-idc0", idc == 0) {
-			idc = 1
-		}
-		tr.AspectRatioIDC = uint8(idc)
-		if idc == 255 {
-			v.SampleAspectRatioWidth = avcDrawUint(t, 0, 65535, "sar_width")
-			v.SampleAspectRatioHeight = avcDrawUint(t, 0, 65535, "sar_height")
-		}
-	}
-	v.OverscanInfoPresentFlag = rapid.Bool().Draw(t, "overscan_info_present_flag")
-	if v.OverscanInfoPresentFlag {
-		v.OverscanAppropriateFlag = rapid.Bool().Draw(t, "overscan_appropriate_flag")
-	}
-	v.VideoSignalTypePresentFlag = rapid.Bool().Draw(t, "video_signal_type_present_flag")
-	if v.VideoSignalTypePresentFlag {
-		v.VideoFormat = uint(rapid.IntRange(0, 5).Draw(t, "video_format"))
-		v.VideoFullRangeFlag = rapid.Bool().Draw(t, "video_full_range_flag")
-		v.ColourDescriptionFlag = rapid.Bool().Draw(t, "colour_description_present_flag")
-		if v.ColourDescriptionFlag {
-			v.ColourPrimaries = avcDrawUint(t, 0, 255, "colour_primaries")
-			v.TransferCharacteristics = avcDrawUint(t, 0, 255, "transfer_characteristics")
-			v.MatrixCoefficients = avcDrawUint(t, 0, 255, "matrix_coefficients")
-		}
-	}
-	v.ChromaLocInfoPresentFlag = rapid.Bool().Draw(t, "chroma_loc_info_present_flag")
-	if v.ChromaLocInfoPresentFlag {
-		v.ChromaSampleLocTypeTopField = uint(rapid.IntRange(0, 5).Draw(t, "chroma_sample_loc_type_top_field"))
-		v.ChromaSampleLocTypeBottomField = uint(rapid.IntRange(0, 5).Draw(t, "chroma_sample_loc_type_bottom_field"))
-	}
-	v.TimingInfoPresentFlag = rapid.Bool().Draw(t, "timing_info_present_flag")
-	if v.TimingInfoPresentFlag {
-		v.NumUnitsInTick = avcDrawUint(t, 1, 1<<32-1, "num_units_in_tick")
-		v.TimeScale = avcDrawUint(t, 1, 1<<32-1, "time_scale")
-		v.FixedFrameRateFlag = rapid.Bool().Draw(t, "fixed_frame_rate_flag")
-	}
-	hrdDen := 3
-	if light {
-		hrdDen = 8
-	}
-	v.NalHrdParametersPresentFlag = avcChance(t, 1, hrdDen, "nal_hrd_parameters_present_flag")
-	if v.NalHrdParametersPresentFlag {
-		v.NalHrdParameters = genAVCHRD(t, "nalhrd")
-	}
-	v.VclHrdParametersPresentFlag = avcChance(t, 1, hrdDen, "vcl_hrd_parameters_present_flag")
-	if v.VclHrdParametersPresentFlag {
-		v.VclHrdParameters = genAVCHRD(t, "vclhrd")
-	}
-	if v.NalHrdParametersPresentFlag || v.VclHrdParametersPresentFlag {
-		v.LowDelayHrdFlag = rapid.Bool().Draw(t, "low_delay_hrd_flag")
-	}
-	v.PicStructPresentFlag = rapid.Bool().Draw(t, "pic_struct_present_flag")
-	v.BitstreamRestrictionFlag = rapid.Bool().Draw(t, "bitstream_restriction_flag")
-	if v.BitstreamRestrictionFlag {
-		v.MotionVectorsOverPicBoundariesFlag = rapid.Bool().Draw(t, "motion_vectors_over_pic_boundaries_flag")
-		v.MaxBytesPerPicDenom = uint(rapid.IntRange(0, 16).Draw(t, "max_bytes_per_pic_denom"))
-		v.MaxBitsPerMbDenom = uint(rapid.IntRange(0, 16).Draw(t, "max_bits_per_mb_denom"))
-		v.Log2MaxMvLengthHorizontal = uint(rapid.IntRange(0, 16).Draw(t, "log2_max_mv_length_horizontal"))
-		v.Log2MaxMvLengthVertical = uint(rapid.IntRange(0, 16).Draw(t, "log2_max_mv_length_vertical"))
-		lo := tr.S.NumRefFrames
-		if lo > 16 {
-			lo = 16
-		}
-		v.MaxDecFrameBuffering = uint(rapid.IntRange(int(lo), 16).Draw(t, "max_dec_frame_buffering"))
-		v.MaxNumReorderFrames = uint(rapid.IntRange(0, int(v.MaxDecFrameBuffering)).Draw(t, "max_num_reorder_frames"))
-	}
-}
-
-// avcDims draws PicWidthInMbs and PicHeightInMapUnits (frame height in MBs <= 1055, frame size <= 139264 MBs: level 6.2).
-func avcDims(t *rapid.T, frameMbsOnly bool) (uint, uint) {
-	var w, h int
-	switch rapid.IntRange(0, 9).Draw(t, "dims-mode") {
-	case 0, 1, 2, 3:
-		w = rapid.IntRange(1, 8).Draw(t, "PicWidthInMbs")
-		h = rapid.IntRange(1, 8).Draw(t, "PicHeightInMapUnits")
-	case 4:
-		d := rapid.SampledFrom([][2]int{{120, 68}, {80, 45}, {45, 36}, {22, 18}, {11, 9}, {240, 135}, {256, 135}, {40, 30}, {480, 270}}).Draw(t, "dims-real")
-		w, h = d[0], d[1]
-	case 5:
-		w = 1055
-		h = rapid.IntRange(1, 132).Draw(t, "PicHeightInMapUnits")
-	case 6:
-		h = 1055
-		w = rapid.IntRange(1, 132).Draw(t, "PicWidthInMbs")
-	default:
-		w = int(avcDrawInt(t, 1, 1055, "PicWidthInMbs"))
-		h = int(avcDrawInt(t, 1, 139264/int64(w), "PicHeightInMapUnits"))
-		if h > 1055 {
-			h = 1055
-		}
-	}
-	if !frameMbsOnly {
-		// h is FrameHeightInMbs/2
-		h = (h + 1) / 2
-	}
-	return uint(w), uint(h)
-}
-
-func genAVCSPS(t *rapid.T, o avcSPSOpts) nalgen.AVCSPSTree {
-	var tr nalgen.AVCSPSTree
-	s := &tr.S
-	tr.NalRefIdc = uint8(rapid.IntRange(1, 3).Draw(t, "sps-nal_ref_idc"))
-	s.Profile = rapid.SampledFrom(avcProfiles).Draw(t, "profile_idc")
-	s.ProfileCompatibility = uint32(rapid.IntRange(0, 63).Draw(t, "constraint_set_flags")) << 2
-	s.Level = rapid.SampledFrom(avcLevels).Draw(t, "level_idc")
-	s.ParameterID = o.ID
-	s.ChromaFormatIDC = 1
-	if nalgen.AVCHighProfileFields(s.Profile) {
-		s.ChromaFormatIDC = byte(rapid.SampledFrom([]int{1, 1, 0, 2, 3, 3}).Draw(t, "chroma_format_idc"))
-		s.BitDepthLumaMinus8 = uint(rapid.SampledFrom([]int{0, 0, 1, 2, 4, 6}).Draw(t, "bit_depth_luma_minus8"))
-		s.BitDepthChromaMinus8 = uint(rapid.SampledFrom([]int{0, 0, 1, 2, 4, 6}).Draw(t, "bit_depth_chroma_minus8"))
-		if o.Conf && avcAvoid("avc-conf-chroma-bitdepth-hardcoded", s.ChromaFormatIDC != 1 || s.BitDepthLumaMinus8 != 0 || s.BitDepthChromaMinus8 != 0) {
-			s.ChromaFormatIDC, s.BitDepthLumaMinus8, s.BitDepthChromaMinus8 = 1, 0, 0
-		}
-		if s.ChromaFormatIDC == 3 {
-			s.SeparateColourPlaneFlag = rapid.Bool().Draw(t, "separate_colour_plane_flag")
-		}
-		s.QPPrimeYZeroTransformBypassFlag = rapid.Bool().Draw(t, "qpprime_y_zero_transform_bypass_flag")
-		den := 4
-		if o.Light {
-			den = 12
-		}
-		s.SeqScalingMatrixPresentFlag = avcChance(t, 1, den, "seq_scaling_matrix_present_flag")
-		if s.SeqScalingMatrixPresentFlag {
-			n := 8
-			if s.ChromaFormatIDC == 3 {
-				n = 12
-			}
-			tr.ScalingLists = genAVCScalingLists(t, n, o.Light, "seq_scaling_list")
-		}
-	}
-	s.Log2MaxFrameNumMinus4 = uint(rapid.IntRange(0, 12).Draw(t, "log2_max_frame_num_minus4"))
-	s.PicOrderCntType = uint(rapid.IntRange(0, 2).Draw(t, "pic_order_cnt_type"))
-	switch s.PicOrderCntType {
-	case 0:
-		s.Log2MaxPicOrderCntLsbMinus4 = uint(rapid.IntRange(0, 12).Draw(t, "log2_max_pic_order_cnt_lsb_minus4"))
-	case 1:
-		s.DeltaPicOrderAlwaysZeroFlag = rapid.Bool().Draw(t, "delta_pic_order_always_zero_flag")
-		const m = 1<<31 - 1
-		drawOff := func(label string) int64 {
-			v := avcDrawInt(t, -m, m, label)
-			if avcAvoid("avc-sps-poc1-offsets-unsigned", v != 0 && v != 1) {
-				v &= 1
-			}
-			return v
-		}
-		tr.OffsetForNonRefPic = drawOff("offset_for_non_ref_pic")
-		tr.OffsetForTopToBottomField = drawOff("offset_for_top_to_bottom_field")
-		n := rapid.SampledFrom([]int{0, 1, 1, 2, 3, 7, 255}).Draw(t, "num_ref_frames_in_pic_order_cnt_cycle")
-		if o.Light && n > 7 {
-			n = 4
-		}
-		for i := 0; i < n; i++ {
-			tr.OffsetForRefFrame = append(tr.OffsetForRefFrame, drawOff("offset_for_ref_frame"))
-		}
-	}
-	s.NumRefFrames = uint(rapid.SampledFrom([]int{0, 1, 1, 2, 3, 4, 15, 16}).Draw(t, "max_num_ref_frames"))
-	s.GapsInFrameNumValueAllowedFlag = rapid.Bool().Draw(t, "gaps_in_frame_num_value_allowed_flag")
-	s.FrameMbsOnlyFlag = avcChance(t, 2, 3, "frame_mbs_only_flag")
-	w, h := avcDims(t, s.FrameMbsOnlyFlag)
-	tr.PicWidthInMbsMinus1, tr.PicHeightInMapUnitsMinus1 = w-1, h-1
-	if !s.FrameMbsOnlyFlag {
-		s.MbAdaptiveFrameFieldFlag = rapid.Bool().Draw(t, "mb_adaptive_frame_field_flag")
-	}
-	s.Direct8x8InferenceFlag = !s.FrameMbsOnlyFlag || rapid.Bool().Draw(t, "direct_8x8_inference_flag") // shall be 1 when frame_mbs_only_flag is 0
-	s.FrameCroppingFlag = rapid.Bool().Draw(t, "frame_cropping_flag")
-	if s.FrameCroppingFlag {
-		cx, cy := nalgen.AVCCropUnits(s)
-		fw := w * 16
-		fh := h * 16
-		if !s.FrameMbsOnlyFlag {
-			fh *= 2
-		}
-		// CropUnitX*(left+right) < width, CropUnitY*(top+bottom) < height (7.4.2.1.1)
-		maxX := (fw - 1) / cx
-		maxY := (fh - 1) / cy
-		hor := avcDrawUint(t, 0, uint64(maxX), "crop-hor")
-		ver := avcDrawUint(t, 0, uint64(maxY), "crop-ver")
-		s.FrameCropLeftOffset = uint(rapid.IntRange(0, int(hor)).Draw(t, "frame_crop_left_offset"))
-		s.FrameCropRightOffset = hor - s.FrameCropLeftOffset
-		s.FrameCropTopOffset = uint(rapid.IntRange(0, int(ver)).Draw(t, "frame_crop_top_offset"))
-		s.FrameCropBottomOffset = ver - s.FrameCropTopOffset
-	}
-	den := 2
-	if o.Light {
-		den = 5
-	}
-	if avcChance(t, 1, den, "vui_parameters_present_flag") {
-		genAVCVUI(t, &tr, o.Light)
-	}
-	return tr
-}
-
-func avcSPSClasses(tr *nalgen.AVCSPSTree) []string {
-	s := &tr.S
-	cl := []string{fmt.Sprintf("avc-sps-profile-%d", s.Profile), fmt.Sprintf("avc-sps-poc%d", s.PicOrderCntType)}
-	if nalgen.AVCHighProfileFields(s.Profile) {
-		cl = append(cl, "avc-sps-high-profile", fmt.Sprintf("avc-sps-chroma%d", s.ChromaFormatIDC))
-		if s.SeparateColourPlaneFlag {
-			cl = append(cl, "avc-sps-separate-colour-plane")
-		}
-		if s.BitDepthLumaMinus8 != 0 || s.BitDepthChromaMinus8 != 0 {
-			cl = append(cl, "avc-sps-highbitdepth")
-		}
-		if s.SeqScalingMatrixPresentFlag {
-			cl = append(cl, "avc-sps-scaling-lists")
-			for i, l := range tr.ScalingLists {
-				if !l.Present {
-					continue
-				}
-				size := 16
-				if i >= 6 {
-					size = 64
-					cl = append(cl, "avc-sps-scaling-list-8x8")
-				}
-				if _, _, def, _ := nalgen.ScalingListValues(l.Deltas, size); def {
-					cl = append(cl, "avc-sps-scaling-list-usedefault")
-				} else if len(l.Deltas) < size {
-					cl = append(cl, "avc-sps-scaling-list-earlystop")
-				}
-			}
-		}
-	} else {
-		cl = append(cl, "avc-sps-baseline-main-extended")
-	}
-	if s.PicOrderCntType == 1 {
-		cl = append(cl, fmt.Sprintf("avc-sps-poc1-cycle-%d", avcBucket(len(tr.OffsetForRefFrame))))
-		if tr.OffsetForNonRefPic < 0 || tr.OffsetForTopToBottomField < 0 {
-			cl = append(cl, "avc-sps-poc1-negative-offset")
-		}
-	}
-	if !s.FrameMbsOnlyFlag {
-		cl = append(cl, "avc-sps-fieldcoding")
-		if s.MbAdaptiveFrameFieldFlag {
-			cl = append(cl, "avc-sps-mbaff")
-		}
-	}
-	if s.FrameCroppingFlag {
-		cl = append(cl, "avc-sps-cropping")
-	}
-	if v := s.VUI; v != nil {
-		cl = append(cl, "avc-sps-vui")
-		if tr.AspectRatioInfoPresent {
-			if tr.AspectRatioIDC == 255 {
-				cl = append(cl, "avc-sps-vui-extended-sar")
-			} else {
-				cl = append(cl, "avc-sps-vui-sar-table")
-			}
-		}
-		if v.VideoSignalTypePresentFlag {
-			cl = append(cl, "avc-sps-vui-videosignal")
-			if v.ColourDescriptionFlag {
-				cl = append(cl, "avc-sps-vui-colourdesc")
-			}
-		}
-		if v.ChromaLocInfoPresentFlag {
-			cl = append(cl, "avc-sps-vui-chromaloc")
-		}
-		if v.TimingInfoPresentFlag {
-			cl = append(cl, "avc-sps-vui-timing")
-		}
-		if v.NalHrdParametersPresentFlag {
-			cl = append(cl, "avc-sps-vui-nalhrd")
-		}
-		if v.VclHrdParametersPresentFlag {
-			cl = append(cl, "avc-sps-vui-vclhrd")
-		}
-		if v.BitstreamRestrictionFlag {
-			cl = append(cl, "avc-sps-vui-bitstream-restriction")
-		}
-	}
-	return cl
-}
-
-func avcBucket(n int) int {
-	switch {
-	case n <= 2:
-		return n
-	case n < 8:
-		return 3
-	case n < 255:
-		return 8
-	}
-	return 255
 }
 
 // avcExpectedSPS builds the struct the parser must return for the tree (full: parseVUIBeyondAspectRatio).
@@ -508,10 +120,10 @@ func checkAVCSPS(c avcSPSCase) *harness.Fail {
 func TestAVCSPS(t *testing.T) {
 	harness.RunRapid(t, "sps", func(rt *rapid.T) {
 		id := uint32(rapid.SampledFrom([]int{0, 0, 1, 2, 3, 15, 30, 31}).Draw(rt, "seq_parameter_set_id"))
-		c := avcSPSCase{Tree: genAVCSPS(rt, avcSPSOpts{ID: id})}
-		cl := avcSPSClasses(&c.Tree)
+		c := avcSPSCase{Tree: esgen.GenAVCSPS(rt, esgen.AVCSPSOpts{ID: id})}
+		cl := esgen.AVCSPSClasses(&c.Tree)
 		raw, _ := json.Marshal(c)
-		harness.Rec.Case(avcNontrivial(cl, "avc-sps-profile-", "avc-sps-poc0", "avc-sps-baseline-main-extended"), raw, cl...)
+		harness.Rec.Case(esgen.AVCNontrivial(cl, "avc-sps-profile-", "avc-sps-poc0", "avc-sps-baseline-main-extended"), raw, cl...)
 		if harness.Rec.WantSample() {
 			n, _ := nalgen.SerializeAVCSPS(&c.Tree)
 			c.Hex = fmt.Sprintf("%x", n)
